@@ -12,7 +12,7 @@ TOKENS = ["$", "@", ".", "..", "[", "]", "(", ")", ",", ":", "?", "*", "!", "=="
           "\uff3b", "\u02bc", "\u2018", "\u201c"]
 
 EDITS = ["delete", "insert", "replace", "transpose", "duplicate", "delete-range", "insert-blank", "case", "wrap", "wrap",
-         "replace-digit"]
+         "replace-digit", "escape-in-literal"]
 
 
 def edit(text: str, r):
@@ -47,6 +47,34 @@ def edit(text: str, r):
         j = min(n, i + r.randrange(1, 14))
         l, rr = r.choice([("(", ")"), ("(", ")"), ("!(", ")"), ("((", "))"), ("[", "]"), ("'", "'"), ("( ", " )")])
         return text[:i] + l + text[i:j] + rr + text[j:], kind
+    if kind == "escape-in-literal" and n > 2:
+        # a backslash put in front of a character inside a quoted literal (the other quote, a letter, a digit, a
+        # blank ...): an escape is valid only for the few characters RFC 9535 lists, per quote style
+        spans = []
+        quote, start = None, 0
+        j = 0
+        while j < n:
+            c = text[j]
+            if quote is None and c in "'\"":
+                quote, start = c, j
+            elif quote is not None and c == "\\":
+                j += 1
+            elif quote is not None and c == quote:
+                if j - start > 1:
+                    spans.append((start + 1, j))
+                quote = None
+            j += 1
+        if spans:
+            a, b = r.choice(spans)
+            at = r.randrange(a, b)
+            if r.random() < 0.5:
+                # make sure the interesting characters are there to be escaped
+                ins = r.choice(["\\\"", "\\'", "\\x", "\\ ", "\\0", "\\U0041", "\\u12", "\\u-123", "\\u 41 ", "\\a", "\\N", "\\\n"])
+                return text[:at] + ins + text[at:], kind
+            return text[:at] + "\\" + text[at:], kind
+        kind = "insert"
+        i = r.randrange(n + 1)
+        return text[:i] + r.choice(TOKENS) + text[i:], kind
     if kind == "replace-digit" and n > 0:
         ds = [i for i, c in enumerate(text) if c in "0123456789abcdefABCDEF"]
         if ds:
